@@ -464,12 +464,33 @@ on call Coordinator.alleviateShards(c, shards) in Coordinator.runOnce
 on call Coordinator.assignNoScrapingTargets(c, shards, act, g) in Coordinator.runOnce
    assert @lemma_status_wf2 allEntriesWf(g)
 
+ghost global gEarlyScaleFailed int
+on after shard.Manager.ChangeScale(x) in Coordinator.runOnce when !gSpaceKnown
+   do gEarlyScaleFailed = gEarlyScaleFailed + ite(result != nil, 1, 0)
+
+// C19: every replica is visited in every cycle, whatever happened to the replicas before it
+ghost global gReplicasOK bool
+on after shard.ReplicasManager.Replicas() in Coordinator.runOnce
+   do gReplicasOK = (result1 == nil && len(result0) > 0)
+ghost global gListCalls int
+ghost global gListedOk int
+ghost global gPlannedReplicas int
+on call shard.Manager.Shards() in Coordinator.runOnce
+   do gListCalls = gListCalls + 1
+on after shard.Manager.Shards() in Coordinator.runOnce
+   do gListedOk = gListedOk + ite(result1 == nil, 1, 0)
+on call Coordinator.gcTargets(c, shards, act) in Coordinator.runOnce
+   do gPlannedReplicas = gPlannedReplicas + 1
+
 contract Coordinator.runOnce
   requires wfCoord(c) && wfAll()
+  ensures[C19] @every_replica_is_listed (defined(replicas) && gReplicasOK) ==> gListCalls == old(gListCalls) + len(replicas)
+  ensures[C19] @listed_replicas_are_planned_unless_their_own_scale_up_failed (defined(replicas) && gReplicasOK) ==> gPlannedReplicas - old(gPlannedReplicas) + gEarlyScaleFailed - old(gEarlyScaleFailed) == gListedOk - old(gListedOk)
   modifies shardInfo.*, shard.RuntimeInfo.*, target.ScrapeStatus.*, mapof(shardInfo.scraping), mapof(shardInfo.newTargets), elems(shardInfo.newTargets) at {},
            target.Target.* at {}, shard.Shard.*, shard.UpdateConfigRequest.* at {}, shard.UpdateTargetsRequest.* at {},
            tkestack.io/kvass/pkg/scrape.StatisticsSeriesResult.* at {}, mapof(tkestack.io/kvass/pkg/scrape.StatisticsSeriesResult.MetricsTotal) at {},
-           Coordinator.lastGlobalScrapeStatus at {c}, gScrOwner, gClock, gActive, gSpaceKnown, gNeedHead, gNeedProc
+           Coordinator.lastGlobalScrapeStatus at {c}, gScrOwner, gClock, gActive, gSpaceKnown, gNeedHead, gNeedProc, gListCalls, gListedOk, gPlannedReplicas, gEarlyScaleFailed, gReplicasOK
+  loop 1 invariant[C19] gListCalls == old(gListCalls) + idx1 && gPlannedReplicas - old(gPlannedReplicas) + gEarlyScaleFailed - old(gEarlyScaleFailed) == gListedOk - old(gListedOk)
   loop 1 invariant wfAll()
   loop 1 invariant newLastGlobalScrapeStatus != nil && fresh(newLastGlobalScrapeStatus) && gScrOwner[newLastGlobalScrapeStatus] == nil && allEntriesWf(newLastGlobalScrapeStatus)
 @*/
